@@ -206,6 +206,9 @@ pub fn run(ctx: &Ctx) -> i32 {
         acc.inconclusive.push(format!("only {accepted_mutants} accepted mutants were observed"));
     }
     acc.witnesses();
+    if !ctx.quick() {
+        acc.miri(0, 40);
+    }
     acc.finish(
         "exploration",
         "per 20 cases: 3 G-wt programs, 10 kind-breaking AST mutants of G-wt programs (subterm replaced by a snippet or variable of another kind, subterms swapped, arity changed, subterm wrapped), 4 token/byte mutants, 3 corpus programs or their mutants; plus 12 nesting families at depths 1..200; each loaded, and if accepted evaluated and emitted in a worker process; non-trivial = a mutant or nesting program that the checker accepted (so evaluation ran on it); distinct by source hash",
